@@ -664,6 +664,78 @@ pub fn gen_softrej(r: &mut Rng, feat: u32) -> (Universe, Prob) {
     (u, Prob { reqs, cons: vec![], soft })
 }
 
+/// A cascade of n learnt clauses, each derived from the previous one (found by a defect-hunting run):
+/// the solver decides P_1.hi .. P_n.hi on n levels, then every P_i.lo turns out to be impossible in turn.
+/// Exercises everything that walks the learnt-from-learnt chain (depth n).
+pub fn gen_domino(n: u32) -> (Universe, Prob) {
+    let mut u = Universe::default();
+    let mut add_pkg = |u: &mut Universe, k: u32| -> (u32, Vec<u32>) {
+        let name = u.pkgs.len() as u32;
+        let mut p = Pkg::default();
+        for i in 0..k {
+            let id = u.sols.len() as u32;
+            u.sols.push(Sol { name, rank: i, deps: Some(Known { reqs: vec![], cons: vec![] }) });
+            p.cands.push(id);
+        }
+        p.hint = Hint::All;
+        let c = p.cands.clone();
+        u.pkgs.push(p);
+        (name, c)
+    };
+    let add_vs = |u: &mut Universe, name: u32, m: Vec<u32>| -> u32 {
+        u.vss.push(Vs { name, matching: m });
+        u.vss.len() as u32 - 1
+    };
+    let (gname, gc) = add_pkg(&mut u, 1);
+    let vs_g = add_vs(&mut u, gname, gc.clone());
+    let mut ps = vec![];   // (hi, lo, vs_any)
+    let mut ys = vec![];   // (y, vs_y)
+    let mut zs = vec![];   // (vs_any, [vs_without_k; 3])
+    for _ in 0..n {
+        let (pn, pc) = add_pkg(&mut u, 2);
+        let vs_p = add_vs(&mut u, pn, pc.clone());
+        ps.push((pc[0], pc[1], vs_p));
+        let (yn, yc) = add_pkg(&mut u, 1);
+        let vs_y = add_vs(&mut u, yn, yc.clone());
+        ys.push((yc[0], vs_y));
+        let (zn, zc) = add_pkg(&mut u, 3);
+        let vs_z = add_vs(&mut u, zn, zc.clone());
+        let without: Vec<u32> = (0..3).map(|k| add_vs(&mut u, zn, zc.iter().copied().filter(|&z| z != zc[k]).collect())).collect();
+        zs.push((vs_z, without));
+    }
+    let push_con = |u: &mut Universe, s: u32, v: u32| {
+        if let Some(k) = u.sols[s as usize].deps.as_mut() {
+            k.cons.push(v);
+        }
+    };
+    let push_req = |u: &mut Universe, s: u32, v: u32| {
+        if let Some(k) = u.sols[s as usize].deps.as_mut() {
+            k.reqs.push(Req::Single(v));
+        }
+    };
+    for i in 0..n as usize {
+        let (hi, lo, _) = ps[i];
+        // lo requires Y_i and Z_i
+        push_req(&mut u, lo, ys[i].1);
+        push_req(&mut u, lo, zs[i].0);
+        // hi requires P_{i+1}, the last hi fails like a lo
+        if i + 1 < n as usize {
+            push_req(&mut u, hi, ps[i + 1].2);
+        } else {
+            push_req(&mut u, hi, ys[i].1);
+            push_req(&mut u, hi, zs[i].0);
+        }
+        // y_i forbids z_i#0, P_{i-1}.hi forbids z_i#1, P_{i-2}.hi forbids z_i#2 (g stands in below P_1)
+        push_con(&mut u, ys[i].0, zs[i].1[0]);
+        let prev1 = if i >= 1 { ps[i - 1].0 } else { gc[0] };
+        let prev2 = if i >= 2 { ps[i - 2].0 } else { gc[0] };
+        push_con(&mut u, prev1, zs[i].1[1]);
+        push_con(&mut u, prev2, zs[i].1[2]);
+    }
+    let reqs = vec![Req::Single(vs_g), Req::Single(ps[0].2)];
+    (u, Prob { reqs, cons: vec![], soft: vec![] })
+}
+
 pub fn gen_case(id: u64, seed: u64, class: &str, feat: u32) -> Case {
     let mut r = Rng::new(seed.wrapping_mul(0x100000001B3).wrapping_add(id));
     let (u, p) = match class {
@@ -675,6 +747,8 @@ pub fn gen_case(id: u64, seed: u64, class: &str, feat: u32) -> Case {
         "fanout" => gen_fanout(&mut r, feat),
         "softdeep" => gen_softdeep(&mut r, feat),
         "softrej" => gen_softrej(&mut r, feat),
+        // for this class `feat` is the base length of the cascade; lengths vary a little with the case id
+        "domino" => gen_domino(feat.max(1) + (id % 7) as u32),
         // for this class `feat` is the largest candidate count; sizes cycle 1..=feat
         "amo" => gen_amo(&mut r, 1 + (id % feat.max(1) as u64) as u32),
         other => panic!("unknown class {other}"),
